@@ -57,6 +57,9 @@ def one_case(args):
         if kind == "signal_pipe":
             argv = [exe] + mode + ["-E", str(N)]
             kw = dict(stdin_data=data, chunk=16384, signal_after_chunk=rng.randrange(0, nchunks + 1), signum=signum)
+            if rng.random() < 0.4:
+                # the upstream goes quiet right after the signal (no data, no end of input) for longer than any internal polling interval
+                kw["pause"] = (kw["signal_after_chunk"], rng.choice([0.7, 1.6]))
         elif kind == "signal_file":
             p = os.path.join(wd, "c%d.raw" % case)
             write_file(p, data)
@@ -95,18 +98,24 @@ def one_case(args):
         p = os.path.join(wd, "c%d.raw" % case)
         write_file(p, data)
         cap = rng.choice([1, 2, 3, 10, 50])
-        argv = [exe, p] + rng.choice([["check", "all"], ["check", "all", "its"], ["check", "all", "its-stave"]]) + ["-e", str(cap), "-E", str(N)]
+        cap_pipe = rng.random() < 0.4
+        argv = [exe] + ([] if cap_pipe else [p]) + rng.choice([["check", "all"], ["check", "all", "its"], ["check", "all", "its-stave"]]) + ["-e", str(cap), "-E", str(N)]
         desc = "cap: %d packets with errors on %d links, -e %d" % (npk, len(s.links), cap)
+        if cap_pipe:
+            # from a pipe whose producer goes quiet (neither data nor end of input) for a while at a random chunk, typically after the cap was reached
+            nchunks = (len(data) + 16383) // 16384
+            kw = dict(stdin_data=data, chunk=16384, pause=(rng.randrange(0, nchunks + 1), rng.choice([0.7, 1.6])))
+            desc += ", pipe with a quiet producer at chunk %d for %.1f s" % kw["pause"]
     else:
         s = big_stream(rng, npk if kind == "fatal" else max(npk, 12000), nlinks=one_link or rng.choice([1, 2, 4]))
         pk = s.all_packets()
-        i = rng.choice([1, 50, 99, 100, 101, len(pk) // 2, len(pk) - 1])
+        i = rng.choice([0, 1, 50, 99, 100, 101, len(pk) // 2, len(pk) - 1])
         pk[i].f["offset_to_next"] = rng.choice([0, 10, 10065, 0xFFFF])
         data = s.serialize()
         p = os.path.join(wd, "c%d.raw" % case)
         write_file(p, data)
         if kind == "fatal_stall":
-            env["FASTPASTA_VERIF_SCHED"] = "%d:50:%d:%d:%d" % (seed + case, rng.choice([4, 7, 5]), rng.choice([20, 100]), rng.choice([1, 5]))
+            env["FASTPASTA_VERIF_SCHED"] = "%d:50:%d:%d:%d" % (seed + case, rng.choice([4, 7, 5]), rng.choice([20, 100, 700]), rng.choice([1, 5]))
             sched = env["FASTPASTA_VERIF_SCHED"]
         use_pipe = rng.random() < 0.5
         argv = [exe] + ([] if use_pipe else [p]) + rng.choice([["check", "all", "its"], ["check", "all", "its-stave"], ["view", "rdh"], ["check", "all"]]) + ["-E", str(N)]
@@ -116,6 +125,9 @@ def one_case(args):
             argv += ["-f", str(rng.choice(other).link_id)]
         if use_pipe:
             kw = dict(stdin_data=data, chunk=32768)
+            if rng.random() < 0.5:
+                nchunks = (len(data) + 32767) // 32768
+                kw["pause"] = (rng.randrange(0, nchunks + 1), rng.choice([0.7, 1.6]))
         desc = "%s: fatal framing error at packet %d of %d, %s" % (kind, i, len(pk), " ".join(argv[1:5]))
     if ignored_output:
         argv = argv + ["-f", str(s.links[0].link_id), "-o", os.path.join(wd, "c%d.ignored" % case)]
@@ -183,6 +195,6 @@ def run(res):
                 "(n in {0, 1, 4 KiB, 64 KiB +- 1, random}) for views, filtered data and -S stdout; error cap -e N on inputs with errors on many links; fatal framing error at packet i "
                 "(with stalled validators / collector so that queues are full); each under a seeded H1 schedule; non-trivial = distinct (kind, signal sent, schedule, size)")
     res.min_nontrivial = 30 if res.tier == "quick" else 60
-    res.assumptions = ["a single stop signal (a second one is documented as ungraceful)", "the upstream of a pipe keeps delivering or closes",
+    res.assumptions = ["a single stop signal (a second one is documented as ungraceful)", "the upstream of a pipe eventually delivers or closes (it may go quiet for up to 1.6 s first)",
                        "a signal is delivered once the tool has installed its handler (/proc/<pid>/status SigCgt; bounded wait of 5 s, then it is sent anyway)",
                        "thorough tier runs the exact shipped profile (LTO, 1 CGU)"]
